@@ -408,7 +408,9 @@ pub fn run_history(flavor: Flavor, h: &HCfg) -> Hist {
             while !stop.load(Ordering::SeqCst) {
                 clock::advance(Duration::from_millis(r.range(20, 260)));
                 n += 1;
-                if n % 2 == 0 && ticker::tick() {
+                // no more than 64 unhandled ticks at a time: on executors that only run while a client
+                // drives them the backlog would otherwise grow with the length of the history
+                if n % 2 == 0 && ticks.load(Ordering::SeqCst) < counters::get(&counters::TICKS_DONE) + 64 && ticker::tick() {
                     ticks.fetch_add(1, Ordering::SeqCst);
                 }
                 std::thread::sleep(Duration::from_micros(r.range(50, 400)));
